@@ -301,7 +301,7 @@ func soup(r *rand.Rand, tg *target) []byte {
 
 func main() {
 	c := vk.Init("C11")
-	c.Rule("inputs: (a) every string of length 0..3 over {8,9,=,SOH,1,0,x} (exhaustive, 400 strings); (b) field soups built from the target template's own tags (missing '=', empty fields, repeated SOH, group counts without followers / with wrong counts / wrong first tags, CheckSum tag in the middle) and then frame-fixed by the reference encoder so that they pass the integrity check and reach field and group parsing; (c) byte-level mutations of valid library output; (d) coverage-guided inputs from go test -fuzz (iteration-bounded). Each input is parsed strict and non-strict into every tests/fix44 type and generated templates with nested groups, as an exact-capacity slice and again embedded in a larger buffer with an adversarial tail (results must agree), and looked up with ValueByTag; a sample of the soups (also re-typed as administrative messages) is fed to running sessions of both roles through ServeIncoming, where a panic in the handler loop is recorded. distinct = hash(input, target); non-trivial = the input passes the integrity check (CheckFrame) or is shorter than a framing tag")
+	c.Rule("inputs: (a) every string of length 0..3 over {8,9,=,SOH,1,0,x} (exhaustive, 400 strings); (b) field soups built from the target template's own tags (missing '=', empty fields, repeated SOH, group counts without followers / with wrong counts / wrong first tags, CheckSum tag in the middle) and then frame-fixed by the reference encoder so that they pass the integrity check and reach field and group parsing; (c) byte-level mutations of valid library output; (d) coverage-guided inputs from go test -fuzz (iteration-bounded). Each input is parsed strict and non-strict into every tests/fix44 type and generated templates with nested groups, as an exact-capacity slice and again embedded in a larger buffer with an adversarial tail (results must agree), and looked up with ValueByTag; a sample of the soups (also re-typed as administrative messages) is fed to running sessions of both roles through ServeIncoming, where a panic in the handler loop is recorded. distinct = hash(input, target); non-trivial = the input passes the integrity check (CheckFrame) or is shorter than a framing tag; (f) every all-digit field of valid generated messages given each of 26 hostile values (negative, signed, padded, empty, beyond 32/63/64 bits, exponent/hex/non-ASCII digits), with the frame left as it is and with BodyLength/CheckSum recomputed around the value")
 	c.Assume("a panic is caught by recover in the calling goroutine; fatal errors kill the child, which the orchestrator reports as a violation with the input last logged to disk")
 	tgs := targets(c)
 	nSoup := c.Pick(24000, 700000) // per run, spread over targets
@@ -517,6 +517,71 @@ func main() {
 		tg := tgs[i%len(gen.F44Types)]
 		judgeParse(w, tg, data, "mutated-valid", i)
 		judgeLookup(w, data, lookupTags[r.Intn(len(lookupTags))], "mutated-valid")
+	})
+	// (f) hostile VALUES of numeric fields in otherwise valid messages: every field whose value is all digits (BodyLength,
+	// CheckSum, sequence numbers, group counts, lengths, quantities) is given each value of a fixed list, once with the
+	// frame left as it is and once with BodyLength/CheckSum recomputed around it
+	hostile := []string{"-1", "-16", "-17", "-100", "-2147483649", "-9223372036854775808", "-9223372036854775809", "0", "00", "-0", "+5", " 5", "5 ", "",
+		"4294967296", "9223372036854775807", "9223372036854775808", "18446744073709551615", "18446744073709551616", "18446744073709551646",
+		"99999999999999999999999999", "1e3", "0x10", "1.0", "٣", "１２"}
+	nHostile := c.Pick(len(gen.F44Types)*2, len(gen.F44Types)*40)
+	vk.Parallel(nHostile, nw, func(i int) {
+		w := getWorker(i)
+		r := c.Rand("c11-hostile-numbers", int64(i))
+		ty := gen.F44Types[i%len(gen.F44Types)]
+		m := ty.New()
+		oo := o
+		oo.PopulateProb = 0.5
+		gen.PopulateLib(r, m, oo, true)
+		wire, err, pan := gen.Serialize(m)
+		if err != nil || pan != "" {
+			return
+		}
+		fs, e := fixref.TokenizeLoose(wire)
+		if e != nil || len(fs) < 4 {
+			return
+		}
+		tg := tgs[i%len(gen.F44Types)]
+		for fi, f := range fs {
+			numeric := len(f.Val) > 0
+			for _, ch := range f.Val {
+				if ch < '0' || ch > '9' {
+					numeric = false
+				}
+			}
+			if !numeric {
+				continue
+			}
+			for _, hv := range hostile {
+				// (1) the value replaced, nothing else touched
+				var raw bytes.Buffer
+				for k, g := range fs {
+					raw.WriteString(g.Tag + "=")
+					if k == fi {
+						raw.WriteString(hv)
+					} else {
+						raw.Write(g.Val)
+					}
+					raw.WriteByte(1)
+				}
+				judgeParse(w, tg, raw.Bytes(), "hostile-number", i)
+				// (2) re-framed around the replaced value (not possible for the framing fields themselves)
+				if fi >= 3 && fi < len(fs)-1 {
+					var mid bytes.Buffer
+					for k, g := range fs[2 : len(fs)-1] {
+						mid.WriteString(g.Tag + "=")
+						if k+2 == fi {
+							mid.WriteString(hv)
+						} else {
+							mid.Write(g.Val)
+						}
+						mid.WriteByte(1)
+					}
+					judgeParse(w, tg, fixref.EncodeRaw(fixref.Std, "FIX.4.4", mid.Bytes()), "hostile-number(re-framed)", i)
+				}
+				c.Count("hostile_number_substitutions", 1)
+			}
+		}
 	})
 	// (e) the same hostile bytes through the session's inbound path: no message a peer can send makes it panic
 	nSess := c.Pick(60, 1500)
